@@ -218,6 +218,8 @@ Plan gen_plan(const Profile &pf, uint64_t seed) {
             if (pf.omit_ops && r.chance(0.12)) { Op m; m.kind = OP_OMIT; m.sig = s.sig; m.prod = s.prod; m.en = r.chance(0.6) ? 1 : 0; s.data.push_back(m); }
             if (nops >= 400) break;
         }
+        // on-request omission is switched off before close (KF-C15-onrequest-omit-drops-tail: an omitted final partial block loses its tail)
+        { bool en = false; for (auto &o : s.data) if (o.kind == OP_OMIT) en = o.en; if (en) { Op m; m.kind = OP_OMIT; m.sig = s.sig; m.prod = s.prod; m.en = 0; s.data.push_back(m); } }
     }
     // ---- annotations / utc per signal (and global signal 0)
     auto gen_annos = [&](int sig, int prod, int64_t t0, int64_t span, bool allow) {
@@ -431,6 +433,7 @@ void gen_reads(const Profile &pf, Plan &P, const Model &m, Rng &r) {
 
 bool plan_in_domain(const Plan &P, const Profile &pf) {
     std::map<int, int64_t> first;
+    { std::map<int, int> omit_on; for (auto &o : P.ops) if (o.kind == OP_OMIT) omit_on[o.sig] = o.en; for (auto &kv : omit_on) if (kv.second && !pf.misuse) return false; }
     for (auto &o : P.ops) {
         if (o.kind != OP_FSR) continue;
         if (!pf.gaps && !pf.misuse && !pf.engine_d && o.d > 0) return false;
